@@ -504,3 +504,27 @@ Proof.
   exists cl'. repeat split; try assumption. rewrite D. destruct (owner_pending s p cp I HP) as (cl0 & l & A0 & SL & _).
   rewrite A in A0. inversion A0; subst. eapply J; [exact A|congruence].
 Qed.
+
+(* C02 side of move assignment: the waiters parked on the overwritten future are released AT the assignment, all of
+   them, each once, with the (no-value) result: callbacks in chain order, then the coroutines *)
+Theorem assign_releases_waiters isvoid s p q cp oq cl l :
+  nth_error (proms s) p = Some (Some (Some cp)) -> nth_error (proms s) q = Some (Some oq) -> p <> q ->
+  nth_error (cells s) cp = Some cl -> c_slot cl = CChain l ->
+  snd (pstep isvoid s (PAssign p q)) = 0%Z :: deliver isvoid (c_pay cl) l /\
+  (forall w k, In (w, k) l -> In (Z.of_nat w) (deliver isvoid (c_pay cl) l)).
+Proof.
+  intros HP HQ N HC SL. split.
+  - cbn [pstep]. rewrite HP, HQ. destruct (Nat.eqb_spec p q); [contradiction|].
+    cbn [fire]. unfold resolve. rewrite HC, SL. reflexivity.
+  - intros w k H. unfold deliver. apply in_flat_map. exists (w, k). split; [|left; reflexivity].
+    apply in_or_app. destruct k; [right|left]; apply filter_In; auto.
+Qed.
+
+(* the same for destruction (ordinary / by unwinding) and explicit drop of the owner *)
+Theorem drop_releases_waiters isvoid s p cp cl l x :
+  nth_error (proms s) p = Some (Some (Some cp)) -> nth_error (cells s) cp = Some cl -> c_slot cl = CChain l ->
+  x = PDestroy p \/ x = PUnwind p \/ x = PDrop p ->
+  exists r, snd (pstep isvoid s x) = r :: deliver isvoid (c_pay cl) l.
+Proof.
+  intros HP HC SL [-> |[-> | ->]]; cbn [pstep]; rewrite HP; cbn [fire]; unfold resolve; rewrite HC, SL; eexists; reflexivity.
+Qed.
